@@ -1912,9 +1912,10 @@ func (f *fragment) mergeBlock(id int, data []pairSet) (sets, clears []pairSet, e
 	sets = make([]pairSet, len(data)+1)
 	clears = make([]pairSet, len(data)+1)
 
-	// Limit upper row/column pair.
-	maxRowID := uint64(id+1) * HashBlockSize
-	maxColumnID := uint64(ShardWidth)
+	// Limit upper row/column pair. The bounds of limitIterator are
+	// inclusive, so the last pair of block id is the limit.
+	maxRowID := uint64(id+1)*HashBlockSize - 1
+	maxColumnID := uint64(ShardWidth) - 1
 
 	// Create buffered iterator for local block.
 	itrs := make([]*bufIterator, 1, len(data)+1)
